@@ -107,6 +107,8 @@ class Check(PropertyCheck):
         nconf = 9 if self.tier == "quick" else 30
         inputs = [sp.gen_crafted(rng, kind=rng.choice(["plain", "plain", "garbage", "selzeros", "blkcrc", "trunc", "strmcrc", "magic"]))
                   for _ in range(ninputs)]
+        # groups of exactly 1000 bits (20-bit codes): every alignment against an input block boundary
+        inputs += [sp.gen_long_codes(rng) for _ in range(2 if self.tier == "quick" else 10)]
         jobs = []
         for c in inputs:
             for k in range(nconf):
@@ -114,7 +116,8 @@ class Check(PropertyCheck):
                 frag = None
                 if mode == "stdout" and rng.chance(1, 2):
                     frag = [rng.choice([1, 3, 7, 64, 500]) for _ in range(5)]
-                jobs.append((c, mode, rng.range(1, 8), rng.below(100000), rng.choice(sp.GRANULES + [None]),
+                ig = rng.choice([128, 256, 512, 1024, 2048, 128, 256]) if c.note == "long20" else rng.choice(sp.GRANULES + [None])
+                jobs.append((c, mode, rng.range(1, 8), rng.below(100000), ig,
                              rng.choice([1, 7, 100, 300, None]), rng.choice(["rel", "dbg"]), frag))
         refs = {c.name: sp.reference_run(c.data) for c in inputs}
 
